@@ -332,6 +332,11 @@ def finish(ctx, level_info, build_ok, build_log, audit_res, extra_cov=None, assu
     with open(os.path.join(EVIDENCE_DIR, f"{ctx.prop}.json"), "w") as f:
         json.dump(ev, f, indent=1, default=repr)
     status = "OK" if exit_code == 0 else "FAIL"
+    sigs = {}
+    for v in unknown:
+        sigs[f"{v.kind}:{v.signature}"] = sigs.get(f"{v.kind}:{v.signature}", 0) + 1
+    if sigs:
+        print(f"[{ctx.prop}] violation signatures: {sigs}")
     print(f"[{ctx.prop}] {status} tier={ctx.tier} seed={ctx.seed} theorems={audit_res['discharged']}/"
           f"{audit_res['obligations']} cases={ctx.evaluations} nontrivial={len(ctx.nontrivial)} "
           f"violations={len(unknown)} known={len(known_hit)} wall={ev['wall_s']}s")
@@ -341,6 +346,10 @@ def finish(ctx, level_info, build_ok, build_log, audit_res, extra_cov=None, assu
 def run_property(mod, prop, tier, seed, replay=None):
     """The pipeline of DESIGN.md §2.2 for one property module."""
     ctx = Ctx(prop, tier, seed, replay)
+    import glob
+    for old in glob.glob(os.path.join(REPLAY_DIR, f"{prop}-{tier}-{seed}-*.json")):
+        if not replay:
+            os.remove(old)
     # 1. extract (translator for finite tables)
     if hasattr(mod, "extract"):
         try:
@@ -386,3 +395,49 @@ def run_property(mod, prop, tier, seed, replay=None):
                   extra_cov=getattr(mod, "extra_coverage", lambda c: {})(ctx),
                   assumptions=getattr(mod, "ASSUMPTIONS", []), rule=getattr(mod, "RULE", ""),
                   forbidden_hits=hits)
+
+
+# ----------------------------------------------------------------------------------------------
+# generic case runner used by the property modules
+
+
+def run_cases(ctx, driver, mod, cases):
+    """impl -> model requests -> judge, batching all model requests into one driver run."""
+    reqs, spans, observed = [], [], []
+    for c in cases:
+        o = mod.impl(c)
+        r = mod.model_requests(c, o) if driver is not None else []
+        spans.append((len(reqs), len(r)))
+        reqs += r
+        observed.append(o)
+    outs = driver.run(reqs) if (driver is not None and reqs) else ([] if driver is not None else None)
+    for c, o, (s, k) in zip(cases, observed, spans):
+        mod.judge(ctx, c, o, outs[s:s + k] if outs is not None else None)
+
+
+def default_run(mod):
+    def run(ctx, driver):
+        if ctx.replay is not None:
+            cases = [ctx.replay["case"]] if isinstance(ctx.replay.get("case"), dict) and "op" in ctx.replay["case"] else []
+        else:
+            cases = mod.gen_cases(ctx)
+        setup_impl_env()
+        run_cases(ctx, driver, mod, cases)
+    return run
+
+
+def default_search(mod, rounds=4):
+    """Widened oracle-only search when a proof obligation or the correspondence broke:
+    more seeds through the same generators, judged by the oracle alone."""
+    def search(ctx):
+        known = {e["signature"] for e in load_known(ctx.prop)}
+        for extra in range(1, rounds + 1):
+            sub = Ctx(ctx.prop, ctx.tier, ctx.seed * 1000 + extra)
+            cases = mod.gen_cases(sub)
+            run_cases(sub, None, mod, cases)
+            ctx.evaluations += sub.evaluations
+            found = [v for v in sub.violations if v.kind == "oracle" and v.signature not in known]
+            if found:
+                ctx.violations.extend(found)
+                return
+    return search
